@@ -530,7 +530,7 @@ class BasicContiguousVector<cntgs::Options<Option...>, Parameter...>
 
     void copy_assign(const BasicContiguousVector& other)
     {
-        destruct();
+        clear();
         deallocate_locator();
         memory_ = other.memory_;
         ElementLocatorAndFixedSizes other_locator{other.locator_, other.memory_begin(),     other.max_element_count_,
